@@ -27,7 +27,7 @@ CHECKS = {
     "C18": {
         "engine": "stream", "category": "exploration", "design_ref": "DESIGN.md section 3",
         "technique": "deterministic simulation: seeded read() delivery schedules and read faults against forked tool incarnations, per-line and schedule-independence oracles",
-        "text": "Seeded search over (byte stream, read() schedule, optional read error) for dconv/dadd/dround -S with the real reader compiled at three window sizes (shipped 16 MiB/16384 lines/4 KiB, 2 KiB/64/64, 64 B/4/5) under ASan and without; every line boundary, refill, line-cap and window-full transition is reached thousands of times per run. Oracles: output equals the concatenation of one-line runs (terminators lenient), equals the model text for generator-known tokens, identical under the one-read schedule; read targets stay inside the window mapping. Sampling, not proof.",
+        "text": "Seeded search over (byte stream, read() schedule, optional read error) for dconv/dadd/dround -S with the real reader compiled at three window sizes (shipped 16 MiB/16384 lines/4 KiB, 2 KiB/64/64, 64 B/4/5) under ASan and without; every line boundary, refill, line-cap and window-full transition is reached thousands of times per run. Oracles: output equals the concatenation of one-line runs (terminators lenient), equals the model text for generator-known tokens, identical under the one-read schedule; read targets stay inside the window mapping. Sampling, not proof. A third of the plans take tool and options from a seeded invocation grammar (any option set of the three filters, one input format out of 34, random output formats, zones, --base, -E, 7..40 -i formats); there the replacement text of every value is checked against what the same tool prints for that value as an argument, and every fault-free plan is executed twice (generated schedule, one-read delivery) and compared byte for byte.",
         "note": "Trusted: the simulated read()/mmap() (guard-paged, prefix-delivery semantics of POSIX read), the 20-line civil calendar model used for token replacement texts, the C-locale. Lines containing near-miss tokens are judged differentially only. Read errors use a relaxed oracle (line-prefix); EINTR/EAGAIN are injected for reach although the tools install no handlers.",
     },
 }
@@ -36,13 +36,13 @@ CHECKS.update({
     "C12": {
         "engine": "zone", "category": "exploration", "design_ref": "DESIGN.md section 5",
         "technique": "deterministic simulation: zone files through a simulated file layer, seeded op sequences on stateful zone handles, reference model of the TZif table as oracle",
-        "text": "Every file of the installed zone database (598 files, every transition -1/0/+1 s, forward and inverse, in seeded order) plus seeded synthetic TZif files (v1/v2/v3, 0..3000 transitions, >255, no-op transitions, v1 block differing from the 64-bit block) are served from the simulated file system; lookups run as op sequences on a handle with history and on a fresh handle, each answer compared with an independent table model; every fifth plan also runs dconv --zone/--from-zone and dzone --next --prev on the same file. Hangs are caught by a CPU budget. Sampling over op orders, exhaustive over the transitions of the installed database.",
+        "text": "Every file of the installed zone database (598 files, every transition -1/0/+1 s, forward and inverse, in seeded order) plus seeded synthetic TZif files (v1/v2/v3, 0..3000 transitions, >255, no-op transitions, v1 block differing from the 64-bit block) are served from the simulated file system; lookups run as op sequences on a handle with history and on a fresh handle, each answer compared with an independent table model; every fifth plan also runs dconv --zone/--from-zone and dzone --next --prev on the same file. Hangs are caught by a CPU budget. Sampling over op orders, exhaustive over the transitions of the installed database. dzone --prev is judged in the first range of the table as well (right-hand side only).",
         "note": "Trusted: the 60-line reference TZif reader and civil-from-epoch formatter in sim/models.h. Instants before the first listed transition prime state but their value is not judged (the statement starts at the first transition). The inverse clause is judged on tables whose transitions are at least 26 h apart (all installed zones qualify). Tool-level output is compared only for quarter-hour offsets (%Z resolution) and years 1601..3800.",
     },
     "C13": {
         "engine": "hist", "category": "exploration", "design_ref": "DESIGN.md section 4",
         "technique": "deterministic simulation: N-input incarnation vs N one-input incarnations under one simulated clock; op sequences on a zone handle vs fresh-handle answers",
-        "text": "Histories: for 37 line-independent invocations of dconv/dadd/dround/ddiff/dgrep/dzone a seeded history of 1..700 values (arguments or stdin lines, one line per read()) must print exactly the concatenation of the one-value runs; values are drawn to prime known state (before-first-transition, index >255, missing fields, junk between good values, >255 searches, reader window reuse in the 64-byte-window build). Handle level: after any op sequence a zone handle and its zif_copy must answer like a freshly opened handle, on all installed zones and synthetic ones.",
+        "text": "Histories: for 37 line-independent invocations of dconv/dadd/dround/ddiff/dgrep/dzone a seeded history of 1..700 values (arguments or stdin lines, one line per read()) must print exactly the concatenation of the one-value runs; values are drawn to prime known state (before-first-transition, index >255, missing fields, junk between good values, >255 searches, reader window reuse in the 64-byte-window build). Handle level: after any op sequence a zone handle and its zif_copy must answer like a freshly opened handle, on all installed zones and synthetic ones. Half of the histories draw the invocation from the same seeded grammar instead of the table (overlapping -i families, -E on plain stdin, 12..40-item output formats, zone pairs whose first name is a prefix of the second).",
         "note": "Trusted: forked incarnations really start from fresh static state. Histories with clock-dependent values (time without date, year-month) run under a frozen clock, because the moment `now' is first needed legitimately differs between a long run and a one-value run. dzone histories use well-formed dates only (dzone takes anything else for a zone name).",
     },
 })
@@ -51,7 +51,7 @@ CHECKS.update({
     "C19": {
         "engine": "files", "category": "fault_enumeration", "design_ref": "DESIGN.md section 6",
         "technique": "deterministic simulation with fault injection on a simulated file layer: seeded fault sequences (truncation, corrupted header fields, torn bytes, failing open/fstat/mmap/malloc/write) against the real loaders and map compiler under ASan and guard pages; compiled-map lookups against the source as reference model",
-        "text": "Loader robustness: images of the installed zone database and maps produced by the real compiler are damaged by seeded fault sequences placed at header fields, block boundaries and record ends, then opened, queried and closed inside one incarnation; the oracle is structural (returns within a CPU budget, no sanitizer report, no fault on the guard page behind the file image, returned strings usable). Faithfulness: for generated sources with variable-length keys and zone names that are prefixes of each other every key, each strict prefix, one-character extensions and sort-order neighbours are looked up in the compiled map and compared with the source; write faults in the compiler must leave either nothing or a complete map. Seeded enumeration of fault positions, not exhaustive.",
+        "text": "Loader robustness: images of the installed zone database and maps produced by the real compiler are damaged by seeded fault sequences placed at header fields, block boundaries and record ends, then opened, queried and closed inside one incarnation; the oracle is structural (returns within a CPU budget, no sanitizer report, no fault on the guard page behind the file image, returned strings usable). Faithfulness: for generated sources with variable-length keys and zone names that are prefixes of each other every key, each strict prefix, one-character extensions and sort-order neighbours are looked up in the compiled map and compared with the source; write faults in the compiler must leave either nothing or a complete map. Seeded enumeration of fault positions, not exhaustive. Tool level: several MAP:KEY specs (two maps m and mm, keys with colons, zone names that are prefixes of each other) resolved by one dzone process must agree with one process per plain zone name.",
         "note": "Trusted: the simulated mmap (file image + ASan-poisoned slack + PROT_NONE guard; in the gcc build only the guard page), the allocator_may_return_null setting (huge allocations fail like malloc does). After a content fault the values returned are not judged. Sources are well-formed and ascending as tzmap check demands; zone name pools stay below 64 KiB (the format's 16-bit offset). A descriptor left open after a failed load is counted as a diagnostic, not a violation.",
     },
 })
@@ -60,7 +60,7 @@ CHECKS.update({
     "C20": {
         "engine": "env", "category": "exploration", "design_ref": "DESIGN.md section 7",
         "technique": "deterministic simulation of the process environment: simulated clock (start, drift, jumps, failure), simulated TZ/LANG/LC_* with libc time/locale seams, locale file behind the simulated file layer; same invocation across environments must agree; locale setter op sequences against a two-slot model",
-        "text": "Each seeded invocation with fully specified input (or with --base) runs as a forked incarnation under a baseline and several simulated environments that differ in the clock only, TZ only, LC_* only and in everything; stdout and exit status must be identical. Negative controls (missing fields, no --base) must differ across clocks or the check reports a dead seam (exit 2) instead of passing. Locale direction: op sequences of the two setters, resets and failing setters (unknown name, unreadable or torn file) with parse/format probes against a two-slot model built from data/locale, and --from-locale A --locale B on dconv/dadd/dround in both option orders (all 274x274 pairs in the thorough tier) against parse-with-A then print-with-B.",
+        "text": "Each seeded invocation with fully specified input (or with --base) runs as a forked incarnation under a baseline and several simulated environments that differ in the clock only, TZ only, LC_* only and in everything; stdout and exit status must be identical. Negative controls (missing fields, no --base) must differ across clocks or the check reports a dead seam (exit 2) instead of passing. Locale direction: op sequences of the two setters, resets and failing setters (unknown name, unreadable or torn file) with parse/format probes against a two-slot model built from data/locale, and --from-locale A --locale B on dconv/dadd/dround in both option orders (all 274x274 pairs in the thorough tier) against parse-with-A then print-with-B. 30% of the invocations come from the seeded grammar restricted to inputs that determine every field or carry --base (in every spelling: date, date-time, @epoch, ISO week, day of year); values that begin like the special keywords (now, today, date, time ...) in literal-prefixed formats of every length residue are included.",
         "note": "Trusted: the simulated clock and getenv seams (validated by the negative controls in every run), the civil weekday model. Only C/POSIX locales are installed, so libc locale leakage is made observable by seams that tag names with the simulated locale once setlocale(LC_TIME|LC_ALL, \"\") has been called. Excluded by the statement's own wording: now/today keywords, one-argument dseq, zone `localtime', 2-digit years and time-only values with a zone unless --base is given. The `strptime' helper tool (a wrapper around libc strptime) is not run. Parse probes are judged by the model only for locales whose month names are ASCII and prefix-free; all others differentially against freshly set tables.",
     },
 })
@@ -69,7 +69,7 @@ CHECKS.update({
     "C08": {
         "engine": "sort", "category": "exploration", "design_ref": "DESIGN.md section 7b",
         "technique": "deterministic simulation of a process pipeline: dsort's real main against simulated pipes, vfork children and stub sort/cut processes stepped by a seeded scheduler (pipe capacities, short writes, interleavings); permutation, order and liveness oracles",
-        "text": "Scoped claim. What is simulated is the datesort clause: dsort computes a key per line, writes line and key with its own safe_write() into a pipe and relies on descriptor plumbing across two vfork()ed children to terminate. The simulator owns pipes (capacity 1 byte to 64 KiB), accepts as few bytes per write as the plan says, and picks which helper runs next; oracles: stdout is a permutation of the input lines, dated lines of one kind come out in chronological order (reverse with -r) by the generator's own instants, every helper sees EOF and is reaped (no deadlock, no descriptor misuse), and the real dtest agrees with the order of adjacent lines. The order laws of the comparison functions themselves (antisymmetry, transitivity, totality over all calendars) are pure functions of the values and are NOT decided by this technique; only the dtest cross-check touches them.",
+        "text": "Scoped claim. What is simulated is the datesort clause: dsort computes a key per line, writes line and key with its own safe_write() into a pipe and relies on descriptor plumbing across two vfork()ed children to terminate. The simulator owns pipes (capacity 1 byte to 64 KiB), accepts as few bytes per write as the plan says, and picks which helper runs next; oracles: stdout is a permutation of the input lines, dated lines of one kind come out in chronological order (reverse with -r) by the generator's own instants, every helper sees EOF and is reaped (no deadlock, no descriptor misuse), and the real dtest agrees with the order of adjacent lines. The order laws of the comparison functions themselves (antisymmetry, transitivity, totality over all calendars) are pure functions of the values and are NOT decided by this technique; only the dtest cross-check touches them. Lines carry dates, date-times with and without UTC offsets, times, month-count-weekday dates and, with 1..40 -i formats, %Y%m%d and %d/%m/%Y stamps.",
         "note": "Trusted: the stub sort(1)/cut(1) (bytewise C-locale comparison of fields 2.., last-resort whole-line comparison, -r) -- locale-dependent collation of a real sort on tied keys is not simulated; the vfork emulation (setjmp in the caller's frame, child branch first). Lines containing the separator byte 0x01 are not generated (a pure-input limitation of dsort's protocol). -u is not exercised (output is then not a permutation by design).",
     },
 })
